@@ -49,6 +49,9 @@ def to_op(t, side, k):
         return ['expire', side, k, False]
     if t == 'hard':
         return ['expire', side, k, True]
+    if t in ('hard_in_gone', 'hard_out_gone'):
+        # the faithful form of a hard expiry: the kernel has already deleted that SA (its DELSA will be answered ESRCH)
+        return ['expire', side, k, True, t == 'hard_out_gone', True]
     return [t, side, k]
 
 
@@ -86,6 +89,7 @@ class Collisions(SM.Monitor):
                                           cfg['id_b'].encode(): cfg['psk_b'].encode()})
         self.pairs = set()
         self.collisions = 0
+        self.backoff = {}
 
     def pre(self, sim, ev):
         ev.pre['c09'] = None
@@ -93,6 +97,10 @@ class Collisions(SM.Monitor):
         if d is None or len(d.data) < 28:
             return
         h = W.dec_header(d.data)
+        if h['flags']['response'] and h['exchange'] == 36:
+            spi = bytes.fromhex(h['spi_r'] if h['flags']['initiator'] else h['spi_i'])
+            sa = next((s for s in ev.ep.sas if bytes(s.my_spi) == spi), None)
+            ev.pre['c09r'] = (sa.state, sa.my_msg_id) if sa is not None else None
         if h['flags']['response'] or h['exchange'] == 34:
             return
         my_spi = bytes.fromhex(h['spi_r'] if h['flags']['initiator'] else h['spi_i'])
@@ -112,6 +120,7 @@ class Collisions(SM.Monitor):
         except Exception as ex:
             sim.fail('observer-lost', f'reference observer cannot follow the wire: {type(ex).__name__}: {ex}')
             return
+        self.no_immediate_retry(sim, ev)
         pre = ev.pre.get('c09')
         if not pre or pre['msgid'] != pre['expected']:
             return                                  # not an in-window request: C08's business
@@ -173,6 +182,45 @@ class Collisions(SM.Monitor):
                                                             'Delete payload')
 
 
+def _no_immediate_retry(self, sim, ev):
+    """RFC 7296 2.25: 'A peer that receives a TEMPORARY_FAILURE notification MUST NOT immediately retry the operation'.  Judged
+    for the IKE_SA rekey (the operation the daemon retries by itself): once its request was answered TEMPORARY_FAILURE, the same
+    IKE_SA emits no new IKE_SA rekey request while the clock stands still - except on the harness's own forced trigger"""
+    now = sim.w.clock.t
+    d = ev.dgram
+    if d is not None and len(d.data) >= 28 and d.data[18] == 36 and d.data[19] & 0x20:
+        dec = self.ob.decoded.get(d.id)
+        if dec is not None:
+            sess, m = dec
+            req = sess.requests.get((not m['flags']['initiator'], m['msgid']))
+            errs = [p['ntype'] for p in W.find(m['inner'], 'NOTIFY')]
+            was = ev.pre.get('c09r')
+            if req is not None and W.N['TEMPORARY_FAILURE'] in errs and was and was[0] == State.REK_IKE_SA_REQ_SENT and \
+                    was[1] == m['msgid']:
+                rh = dict(exchange=36, flags={'response': False})
+                if req_kind(rh, req[0]['inner'])[0] == 'rekey_ike':
+                    h = W.dec_header(d.data)
+                    self.backoff[(ev.ep.name, h['spi_i'], h['spi_r'])] = now
+    if ev.kind == 'rekey_ike':
+        return
+    for o in ev.out:
+        if len(o.data) < 28 or o.data[18] != 36 or o.data[19] & 0x20:
+            continue
+        h = W.dec_header(o.data)
+        if self.backoff.get((ev.ep.name, h['spi_i'], h['spi_r'])) != now:
+            continue
+        if any(p.data == o.data and p.id < o.id for p in sim.w.sent_log):
+            continue                                # a retransmission of an earlier request
+        dec = self.ob.decoded.get(o.id)
+        if dec is not None and req_kind(h, dec[1]['inner'])[0] == 'rekey_ike':
+            sim.fail('immediate-retry-after-temporary-failure:rekey_ike',
+                     f'endpoint {ev.ep.name} sent a new IKE_SA rekey request at the very instant its previous one was answered '
+                     f'TEMPORARY_FAILURE (during {SM.describe(ev)}); RFC 7296 2.25 forbids the immediate retry')
+
+
+Collisions.no_immediate_retry = _no_immediate_retry
+
+
 def run_case(case, extra_monitors=()):
     cfg = mk_cfg(case['cfg'])
     col = Collisions()
@@ -183,10 +231,16 @@ def run_case(case, extra_monitors=()):
         s.fail('setup-not-established', 'the initial exchanges of a compatible configuration did not establish')
         return s.fails, info, s
     s.run(case['ops'])
+    if s.fails:
+        # already decided; the end game of a broken history can be very long (e.g. a retry storm)
+        info['pairs'] = sorted(col.pairs)
+        info['collisions'] = col.collisions
+        return s.fails, info, s
     s.drain(settle=True)
     info['pairs'] = sorted(col.pairs)
     info['collisions'] = col.collisions
-    final_checks(s)
+    if not s.fails:                 # the end game is cut short once a step was found wrong: its end state says nothing then
+        final_checks(s)
     return s.fails, info, s
 
 
